@@ -164,7 +164,22 @@ static void dump_pre(struct scen* s, struct vh_buf* out) {
   for (int i = 0; i < s->npre; i++) walk_dump_item(s->pre[i], out, WD_REFCOUNTS | WD_IDENTITY);
 }
 
-static uint64_t g_runs, g_refusal_runs, g_scen, g_maxN;
+static uint64_t g_runs, g_refusal_runs, g_scen, g_maxN, g_head_attributed;
+
+/* allocator requests made by a fault-free cbor_load of in[0..n) */
+static uint64_t load_requests(const uint8_t* in, size_t n) {
+  if (n == 0) return 0;
+  uint8_t* ex = vh_exact(in, n);
+  struct ta_stats saved = TA;
+  ta_reset_stats();
+  struct cbor_load_result r;
+  cbor_item_t* it = cbor_load(ex, n, &r);
+  uint64_t q = TA.requests;
+  if (it) cbor_decref(&it);
+  free(ex);
+  TA = saved;
+  return q;
+}
 
 static void describe_scen(const uint8_t* d, size_t n, char* out, size_t cap) {
   switch (d[0]) {
@@ -219,9 +234,18 @@ static int64_t fault_run(const uint8_t* sd, size_t sn, int k, int mode, struct o
           struct rheads hs = {0};
           struct rverdict z = ref_decode(sd + 1, sn - 1, LIM, RM_LAZY, false, &hs);
           (void)z;
-          bool at_head = false;
-          for (size_t i = 0; i < hs.n; i++) if (hs.end[i] == o.pos) at_head = true;
-          if (!at_head) vh_violation("memerror-position", "%s, refusing request #%d%s: MEMERROR at %zu, which is not just past an item head", what, k, mode ? " and all later" : "", o.pos);
+          size_t hidx = (size_t)-1;
+          for (size_t i = 0; i < hs.n; i++) if (hs.end[i] == o.pos) hidx = i;
+          if (hidx == (size_t)-1) vh_violation("memerror-position", "%s, refusing request #%d%s: MEMERROR at %zu, which is not just past an item head", what, k, mode ? " and all later" : "", o.pos);
+          else {
+            /* which head's allocation was refused? Request #k is made while the decoder processes the head h for which a
+             * fault-free load of the input cut just before h makes <= k requests and one cut just after h makes > k. */
+            uint64_t before_h = load_requests(sd + 1, hs.start[hidx]), through_h = load_requests(sd + 1, hs.end[hidx]);
+            if (!(before_h <= (uint64_t)k && (uint64_t)k < through_h))
+              vh_violation("memerror-at-wrong-head", "%s, refusing request #%d%s: MEMERROR reported just past the head at [%zu,%zu), but request #%d is made while processing a different head (heads before it make %llu requests, through it %llu)",
+                           what, k, mode ? " and all later" : "", hs.start[hidx], hs.end[hidx], k, (unsigned long long)before_h, (unsigned long long)through_h);
+            else g_head_attributed++;
+          }
           rheads_free(&hs);
         }
       }
@@ -366,6 +390,7 @@ static void fault_run_all(void) {
   vh_count_dyn("runs_total", g_runs);
   vh_count_dyn("runs_in_which_a_refusal_fired", g_refusal_runs);
   vh_count_dyn("scenarios", g_scen);
+  vh_count_dyn("load_refusals_attributed_to_the_right_head", g_head_attributed);
   vh_count_dyn("max_requests_in_one_scenario", g_maxN);
   vh_set_rule("each case is a (scenario, k, mode) triple: the scenario's operation is re-run from scratch with the allocator refusing request k only (mode 0) or request k and all later ones (mode 1), for every k below the fault-free request count N; the fault-free baseline is a case too; non-trivial = a fault schedule run (k < N); distinct by 64-bit hash of (scenario, k, mode)");
   vh_set_exhaustive(false);
